@@ -372,7 +372,9 @@ func Check[C any](t *testing.T, prop string, gen func(*rapid.T) C, run func(C, *
 	})
 }
 
-var timeoutRE = regexp.MustCompile(`context deadline exceeded|DeadlineExceeded|i/o timeout|: timeout$|: timeout\b|system is too busy|timeout waiting|request timed out`)
+// (the last four are the raft library's own "temporary" errors: a raft group that has no leader at the moment - an election on a machine
+// that starves its heartbeats - drops or aborts requests; availability is not what any of the properties states)
+var timeoutRE = regexp.MustCompile(`context deadline exceeded|DeadlineExceeded|i/o timeout|: timeout$|: timeout\b|system is too busy|timeout waiting|request timed out|request dropped as the shard is not ready|request aborted|request canceled|request cancelled`)
 
 // timedOut: failures of the "-error" kind (an engine / RPC call the harness needed returned an error) whose first line shows that the
 // error is an expired deadline.
